@@ -7,6 +7,7 @@ package pipeline
 func init() {
 	vpRegister("c11_validate", vpH_c11_validate)
 	vpRegister("c11_step", vpH_c11_step)
+	vpRegister("c11_tuple", vpH_c11_tuple)
 }
 
 // vpTuple is a dimension->value tuple kept as parallel lists (the oracle never
@@ -227,5 +228,29 @@ func vpH_c11_step() {
 	// reports unknown tokens; with an empty permutation nothing changes
 	if len(p.names) == 0 {
 		vpAssert(err == nil && step.Command == "run {{matrix}}", "step: empty accepted permutation changes nothing")
+	}
+}
+
+// Tuple equality is per dimension: values built from the characters the code
+// itself uses as constants (separators of any internal encoding included)
+// must not make two different tuples look equal.
+func vpH_c11_tuple() {
+	class := "ab0-2" + vpConstChars("*step_command_matrix.go")
+	lens := [][2]int{{1, 1}, {1, vpParam("long")}, {vpParam("long"), 1}}
+	lp := lens[vpInt(0, 2)]
+	la := lens[vpInt(0, 2)]
+	p1, p2 := vpStr(lp[0], class), vpStr(lp[1], class)
+	w1, w2 := vpStr(la[0], class), vpStr(la[1], class)
+	skip := vpBool()
+	m := &Matrix{
+		Setup:       MatrixSetup{"a": {}, "b": {}},
+		Adjustments: MatrixAdjustments{{With: MatrixAdjustmentWith{"a": w1, "b": w2}, Skip: skip}},
+	}
+	err := m.validatePermutation(MatrixPermutation{"a": p1, "b": p2})
+	same := p1 == w1 && p2 == w2
+	if same && !skip {
+		vpAssert(err == nil, "a permutation equal to a non-skipped adjustment tuple is accepted")
+	} else {
+		vpAssert(err != nil, "a permutation that differs from the adjustment tuple in some dimension (and is no setup combination) is rejected")
 	}
 }
